@@ -129,6 +129,12 @@ def run_orient(sc, workdir):
     P = info.parameters
     fn, _lib, sym = particle_fn(info, workdir)
     pars = base_pars(info, rng)
+    if sc.get("onaxis"):
+        # default sizes: on the axis the in-plane component is a rounding residue, which extreme aspect ratios
+        # (random sets reach 1000:1) would amplify beyond the comparison tolerance
+        pars = {k: float(v) for k, v in P.defaults.items()
+                if not k.startswith("up_") and not k.endswith(("_M0", "_mtheta", "_mphi"))}
+        pars["scale"], pars["background"] = 1.0, 0.0
     theta, phi, psi = rng.choice(ANGLES), rng.choice(ANGLES), rng.choice(ANGLES)
     pars["theta"], pars["phi"] = theta, phi
     if sym == "abc":
